@@ -278,12 +278,7 @@ def rand_detector(r, name, shape, T, kinds=("field", "energy", "poynting", "phas
         lo_b, hi_b = (0, shape[ax]) if inner is None else inner[ax]
         p = int(r.integers(lo_b, hi_b))
         box[ax] = [p, p + 1]
-        for a in range(3):
-            if a != ax and box[a][1] - box[a][0] == 1:  # keep exactly one unit axis
-                if box[a][0] > 0:
-                    box[a][0] -= 1
-                else:
-                    box[a][1] += 1
+        d["fixed_propagation_axis"] = ax  # other axes may be one cell wide too, so name the axis explicitly
         d["box"] = box
         d["direction"] = choice(r, ["+", "-"])
         d["reduce"] = bool(r.uniform() < 0.6)
